@@ -27,7 +27,9 @@ class Fx(object):
         b = body or self.f.get(ident)
         if b is None:
             return None, None
-        t = H.tree_of(self.f, b, "op", keep=self.keep + tuple(keep), inline_private=True)
+        info = {}
+        t = H.tree_of(self.f, b, "op", keep=self.keep + tuple(keep), inline_private=True, info=info)
+        self.iterated = info.get("iterated", [])
         t = idioms.rewrite_tree(t, self.f)
         return vg.map_tree(t, self.N.norm), b
 
@@ -47,6 +49,15 @@ class Fx(object):
                     if frac >= 0.9:
                         self.tables[(fam, k)] = (mk("carray", ty, c["val"]["hex"]), c)
         return self.tables
+
+def horner_chain(x, table, lo, hi):
+    """Horner evaluation over table[lo..hi] exactly as the crate's `polynomial!` does it:
+    acc = c[hi-1]; acc = x*acc + c[i] for i = hi-2 .. lo (TwoFloat arithmetic)"""
+    w = F.words_from_hex(table[2])
+    acc = const_tf((w[2 * (hi - 1)], w[2 * (hi - 1) + 1]))
+    for i in range(hi - 2, lo - 1, -1):
+        acc = x * acc + const_tf((w[2 * i], w[2 * i + 1]))
+    return acc
 
 def check_ref(fx, rule, ident, ref, what, body=None, keep=(), inst=None, key=None):
     rep = fx.rep
@@ -163,6 +174,8 @@ def check_C13(ctx, rep):
     check_powi_loop(fx)
     from . import rules_total
     rules_total.totality(rep, f, "R30", rules_total.entries_C13(), "powi / Pow / roots", min_sites=0)
+    from .rules_c10 import check_delegation_subset
+    check_delegation_subset(rep, f, {"sqrt", "cbrt", "hypot", "powi", "recip"})
     rep.floor("R31", len([o2 for o2 in rep.obl if o2["rule"] == "R31"]), 3, "root functions")
 
 def check_zero_division(fx, ident, t, b):
@@ -266,7 +279,7 @@ def expm1_quarter_ref(fx, z, frac):
     tab = find_table(fx, "exp((i-k)/128)-1", 32, 65)
     e0 = V(mk("index", tab, mk("cast", "IntToInt", "i32", "usize", idx)), "TF")
     exp_x0 = e0 + 1.0
-    hz = V(mk("horner", y.t, mk("coeffs", frac, 2, 15)), "TF")
+    hz = horner_chain(y, frac, 2, 15)
     p = y * (y * hz + 1.0)
     res = e0 + exp_x0 * p
     ni = cast("FloatToInt", "f64", "i32", libm("trunc", n)).t
@@ -282,6 +295,11 @@ def check_C14(ctx, rep):
     pol = vg.Policy(f, "op")
     eh = [b for b in fx.by_sig(["i32"], TF) if pol.has_loop_or_recursion(b)]       # the self-recursive table function
     mp = [b for b in fx.by_sig(["f64", "i32"], "f64") if pol.has_loop_or_recursion(b)]
+    if not mp:
+        # the scaling helper may also be a local closure of exp2: any looping closure taking (f64, i32)
+        for b in f.live:
+            if b.kind == "Closure" and pol.has_loop_or_recursion(b) and [F.norm_ty(l["ty"]) for l in b.mir["locals"][2:1 + b.mir["arg_count"]]] == ["f64", "i32"]:
+                mp.append(b)
     rep.check(len(eh) == 1, "R35", "exp(n/2) table function (role-identified)", "anchor-lost:exp_half", "expected exactly one private fn(i32) -> TwoFloat, found %s (reason=anchor-lost)" % [b.ident() for b in eh], nontrivial=False)
     rep.check(len(mp) == 1, "R35", "power-of-two scaling function (role-identified)", "anchor-lost:mul_pow2", "expected exactly one private fn(f64, i32) -> f64, found %s (reason=anchor-lost)" % [b.ident() for b in mp], nontrivial=False)
     if len(eh) != 1 or len(mp) != 1:
@@ -344,16 +362,16 @@ def check_C14(ctx, rep):
         return IF(mk("cmp", "lt", "i32", n, mk("const", "i32", lim)),
                   IF(mk("call", "core::num::<impl i32>::is_negative", n), rec, body), PANIC)
     check_ref(fx, "R35", EH, exp_half_ref, "n<limit; n<0 -> 1/exp_half(-n); (a,b)=(n/32,n%32); exp16[a-1]*exphalf[b-1] with empty factors dropped", body=eh[0], inst="exp_half (exp(n/2) from tables)")
-    # ---- exp_m1
-    def exp_m1_ref(t):
+    check_exp_m1(fx, frac)
+    # ---- exp_m1 (see check_exp_m1)
+    def exp_m1_ref_unused(t):
         s = param(0)
         ln2 = oracle.dd_named("LN_2"); l32 = oracle.dd_named("ln(3/2)")
         LN2 = TFv(ln2[0], ln2[1]); L32 = TFv(l32[0], l32[1])
         x = s.abs()
-        r = x * V(mk("horner", x.t, mk("coeffs", frac, 2, 15)), "TF") + 1.0
+        r = x * horner_chain(x, frac, 2, 15) + 1.0
         big = RETV(s.exp() - 1.0)
         return IF(tcmp("lt", s, -LN2), big, IF(tcmp("gt", s, L32), big, IF(tcmp("lt", s, 0.0), RETV(s * r * s.exp()), RETV(s * r))))
-    check_ref(fx, "R35", "TwoFloat::exp_m1", exp_m1_ref, "outside [-dd(ln 2), dd(ln 3/2)] -> exp(x)-1; inside: x*(1+|x|*Taylor[2..15](|x|)), times exp(x) for x<0")
     # ---- exp2
     def exp2_ref(t):
         s = param(0)
@@ -368,14 +386,22 @@ def check_C14(ctx, rep):
         ln2 = oracle.dd_named("LN_2"); LN2 = TFv(ln2[0], ln2[1])
         k = libm("round", s.hi)
         r = (s - k) * LN2 / 512.0
-        r1 = V(mk("horner", r.t, mk("coeffs", frac, 0, 12)), "TF")
+        r1 = horner_chain(r, frac, 0, 12)
         for _ in range(9):
             r1 = r1 * r1
         ki = cast("FloatToInt", "f64", "i32", k).t
-        scaled = TFv(V(mk("call", MP, r1.hi.t, ki), "f64"), V(mk("call", MP, r1.lo.t, ki), "f64"))
+        if not fx.fts:
+            rep.fail("R35", "exp2 renormalisation", "anchor-lost:fast2sum", "no Fast2Sum primitive (reason=anchor-lost)"); return None
+        if mp[0].kind == "Closure":
+            envs = [n[2] for n in all_nodes(tuple(l[1] for _, l in vg.leaves(t) if l[0] == "leaf")) if tag(n) == "call" and n[1] == MP and len(n) == 4]
+            env = envs[0] if envs else mk("agg", ("closure", mp[0].key), ())
+            mpc = lambda w: mk("call", MP, env, mk("agg", ("tuple",), (w, ki)))
+        else:
+            mpc = lambda w: mk("call", MP, w, ki)
+        scaled = V(mk("call", fx.fts[0], mpc(r1.hi.t), mpc(r1.lo.t)), "TF")
         return IF(tcmp("lt", s, L), RETV(ZERO_TF), IF(tcmp("ge", s, U), RETV(TFv(math.inf, math.inf)),
                   IF(fcmp("eq", k, 0.0), RETV(r1), RETV(scaled))))
-    check_ref(fx, "R35", "TwoFloat::exp2", exp2_ref, "x<L -> 0; x>=U -> {inf,inf}; k=round(hi); r=(x-k)*dd(ln2)/512; Taylor[0..12](r) squared nine times; both words scaled by 2^k", keep=(MP,))
+    check_ref(fx, "R35", "TwoFloat::exp2", exp2_ref, "x<L -> 0; x>=U -> {inf,inf}; k=round(hi); r=(x-k)*dd(ln2)/512; Taylor[0..12](r) squared nine times; both words scaled by 2^k and renormalised with Fast2Sum", keep=(MP,))
     # ---- powf
     def powf_ref(t):
         s, y = param(0), param(1)
@@ -390,8 +416,21 @@ def check_C14(ctx, rep):
     # ---- mul_pow2 structural rule on MIR (loop)
     check_mul_pow2(fx, mp[0])
     check_series(fx, frac)
+    from .rules_c10 import check_delegation_subset
+    check_delegation_subset(rep, f, {"exp", "exp2", "exp_m1", "powf"})
     from . import rules_total
     rules_total.totality(rep, f, "R36", rules_total.entries_C14(), "exp family", min_sites=30)
+
+def check_exp_m1(fx, frac, rule="R35"):
+    def exp_m1_ref(t):
+        s = param(0)
+        ln2 = oracle.dd_named("LN_2"); l32 = oracle.dd_named("ln(3/2)")
+        LN2 = TFv(ln2[0], ln2[1]); L32 = TFv(l32[0], l32[1])
+        x = s.abs()
+        r = x * horner_chain(x, frac, 2, 15) + 1.0
+        big = RETV(s.exp() - 1.0)
+        return IF(tcmp("lt", s, -LN2), big, IF(tcmp("gt", s, L32), big, IF(tcmp("lt", s, 0.0), RETV(s * r * s.exp()), RETV(s * r))))
+    check_ref(fx, rule, "TwoFloat::exp_m1", exp_m1_ref, "outside [-dd(ln 2), dd(ln 3/2)] -> exp(x)-1; inside: x*(1+|x|*Taylor[2..15](|x|)), times exp(x) for x<0")
 
 def check_mul_pow2(fx, b):
     rep = fx.rep
@@ -514,6 +553,14 @@ def check_C15(ctx, rep):
     check_ref(fx, "R38", "TwoFloat::log", RETV(s.ln() / b.ln()), "ln(x) / ln(b)")
     l10 = oracle.dd_named("LN_10")
     check_ref(fx, "R38", "TwoFloat::log10", RETV(s.ln() / TFv(l10[0], l10[1])), "ln(x) / dd(ln 10)")
+    # the logarithms are Newton iterations on exp / exp2 / exp_m1: their tables and the exp_m1 switch are
+    # part of what the accuracy clause of this property rests on
+    check_tables(fx)
+    frac = find_table(fx, "1/i!", 0, 21)
+    if frac is not None:
+        check_exp_m1(fx, frac, rule="R39d")
+    from .rules_c10 import check_delegation_subset
+    check_delegation_subset(rep, f, {"ln", "log", "log2", "log10", "ln_1p"})
     rep.floor("R37-39", len([o for o in rep.obl if o["rule"] in ("R38", "R39")]), 5, "logarithm functions")
     from . import rules_total
     rules_total.totality(rep, f, "R40", rules_total.entries_C15(), "logarithm family", min_sites=30)
@@ -531,7 +578,7 @@ def kernels(fx):
     return out
 
 def horner_full(x, node):
-    return V(mk("horner", x.t, mk("coeffs", node, 0, idioms.array_len(node))), "TF")
+    return horner_chain(x, node, 0, idioms.array_len(node))
 
 def k_sin(x, C): 
     x2 = x * x
@@ -571,9 +618,9 @@ def check_C16(ctx, rep):
         rep.fail("R41", "TwoFloat::sin", "unsupported:sin", "cannot evaluate sin: %s" % u); return
     # collect the horner tables used by sin: the kernel whose value is x*(1+x2*H) is the sine kernel
     tabs = []
-    for n in all_nodes(tuple(l[1] for _, l in vg.leaves(t_sin) if l[0] == "leaf")):
-        if tag(n) == "horner" and n[2][1] not in tabs:
-            tabs.append(n[2][1])
+    for carr, lo, hi in fx.iterated:
+        if carr not in tabs:
+            tabs.append(carr)
     if len(tabs) != 2:
         rep.fail("R41", "sin kernels", "anchor-lost:sin-kernels", "expected two minimax tables reachable from sin, found %d (reason=anchor-lost)" % len(tabs)); return
     def classify_kernel(tab):
@@ -616,9 +663,9 @@ def check_C16(ctx, rep):
     try:
         t_tan, b_tan = fx.tree("TwoFloat::tan")
         ttabs = []
-        for n in all_nodes(tuple(l[1] for _, l in vg.leaves(t_tan) if l[0] == "leaf")):
-            if tag(n) == "horner" and n[2][1] not in ttabs:
-                ttabs.append(n[2][1])
+        for carr, lo, hi in fx.iterated:
+            if carr not in ttabs:
+                ttabs.append(carr)
         if len(ttabs) != 1:
             rep.fail("R41", "tan kernel", "anchor-lost:tan-kernel", "expected one minimax table reachable from tan, found %d" % len(ttabs))
         else:
@@ -635,6 +682,8 @@ def check_C16(ctx, rep):
     check_kernel_approx(fx, "cos", role["cos"], "cos")
     if 'ttabs' in dir() and len(ttabs) == 1:
         check_kernel_approx(fx, "tan", ttabs[0], "tan")
+    from .rules_c10 import check_delegation_subset
+    check_delegation_subset(rep, f, {"sin", "cos", "tan", "sin_cos"})
     rep.floor("R41", len([o for o in rep.obl if o["rule"] == "R41"]), 4, "trigonometric dispatch tables")
 
 # ---------------------------------------------------------------- R43 kernel approximation error
@@ -671,11 +720,11 @@ def check_kernel_approx(fx, name, table, kind):
 
 # ====================================================================== C17
 
-def horner_tables_in(t):
+def horner_tables_in(fx):
     tabs = []
-    for n in all_nodes(tuple(l[1] for _, l in vg.leaves(t) if l[0] == "leaf")):
-        if tag(n) == "horner" and n[2][1] not in tabs:
-            tabs.append(n[2][1])
+    for carr, lo, hi in fx.iterated:
+        if carr not in tabs:
+            tabs.append(carr)
     return tabs
 
 def check_C17(ctx, rep):
@@ -692,7 +741,7 @@ def check_C17(ctx, rep):
         rep.fail("R44", "TwoFloat::atan", "unsupported:atan", "cannot evaluate atan: %s" % u); t = None
     atan_tab = None
     if t is not None:
-        tabs = horner_tables_in(t)
+        tabs = horner_tables_in(fx)
         if len(tabs) != 1:
             rep.fail("R44", "atan kernel", "anchor-lost:atan-kernel", "expected one minimax table reachable from atan, found %d" % len(tabs))
         else:
@@ -728,7 +777,7 @@ def check_C17(ctx, rep):
     except vg.Unsupported as u:
         rep.fail("R45", "TwoFloat::asin", "unsupported:asin", "cannot evaluate asin: %s" % u); t = None
     if t is not None:
-        tabs = horner_tables_in(t)
+        tabs = horner_tables_in(fx)
         if len(tabs) != 1:
             rep.fail("R45", "asin kernel", "anchor-lost:asin-kernel", "expected one minimax table reachable from asin, found %d" % len(tabs))
         else:
@@ -750,6 +799,8 @@ def check_C17(ctx, rep):
              IF(fcmp("eq", o.hi, 0.0), IF(sp(s.hi), RETV(PI2), RETV(-PI2)),
                 IF(sp(o.hi), RETV(a), IF(sp(s.hi), RETV(a + PIv), RETV(a - PIv)))))
     check_ref(fx, "R46", "TwoFloat::atan2", ref, "y==0: x>=+0 -> 0 else +-pi by the sign of y; x==0: +-pi/2; else atan(y/x), +-pi added for x<0 by the sign of y", keep=("TwoFloat::atan",))
+    from .rules_c10 import check_delegation_subset
+    check_delegation_subset(rep, f, {"asin", "acos", "atan", "atan2"})
     rep.floor("R44-46", len([o2 for o2 in rep.obl if o2["rule"] in ("R44", "R45", "R46")]), 5, "inverse trigonometric functions")
 
 # ====================================================================== C18
@@ -795,6 +846,9 @@ def check_C18(ctx, rep):
     # R48 odd symmetry of sinh / tanh / asinh by mirror analysis at operator level
     check_odd(fx, "TwoFloat::sinh")
     check_odd(fx, "TwoFloat::tanh")
+    check_tables(fx)     # exp's tables: every hyperbolic function is a combination of exp / ln
+    from .rules_c10 import check_delegation_subset
+    check_delegation_subset(rep, f, {"sinh", "cosh", "tanh", "asinh", "acosh", "atanh"})
     rep.floor("R49", len([o for o in rep.obl if o["rule"] == "R49"]), 6, "hyperbolic definitions")
     from . import rules_total
     rules_total.totality(rep, f, "R50", rules_total.entries_C18(), "hyperbolic family", min_sites=20)
